@@ -5,7 +5,9 @@ package recovery
 import "time"
 
 // VerifCalculateDelay exposes the back-off delay before retry number attempt+1. Not built without -tags verif.
-func VerifCalculateDelay(dr *DatabaseRecovery, attempt int) time.Duration { return dr.calculateDelay(attempt) }
+func VerifCalculateDelay(dr *DatabaseRecovery, attempt int) time.Duration {
+	return dr.calculateDelay(attempt)
+}
 
 // VerifShouldRetry exposes the retry classification.
 func VerifShouldRetry(dr *DatabaseRecovery, err error) bool { return dr.shouldRetry(err) }
